@@ -363,7 +363,9 @@ IDENT = ['a', 'b', 'c', 'f', 'g', 'x', 'y', 'K', 'M', '_p', '__d__', '_q', 'r\u0
 class Check(PropertyCheck):
     id = 'C17'
     props_module = 'Props.C17'
-    models = {'inventory': 'XInventory.v'}
+    models = {'inventory': 'XInventory.v', 'inventory_ir': 'XInventoryIR.v'}
+    needs_gen = True
+    gen_modules = ['gen_c17_code']
     rule = ('lines: every sequence of <= N tokens from {a, "", 1, -1, py:x, std:y, b$, -} joined by single spaces '
             '(N = 5 quick / 6 thorough), every single-column mutation of 11 valid v2 lines; payloads: every byte string of '
             'length <= 2 as decompressed payload and (after "#\\n") as raw data (thorough: length <= 3 raw, summarised), every '
@@ -381,6 +383,11 @@ class Check(PropertyCheck):
         'Coq 8.16.1 kernel (coqc; vm_compute for witnesses and for closed facts about py_int; no native_compute)',
         'no axioms (Print Assumptions: Closed under the global context for every theorem)',
         'extraction: ExtrOcamlBasic only; OCaml 4.13.1; coq/ocaml/driver.ml',
+        'translator harness/gen/gen_c17_code.py (fail-closed; Python ast of _parseInventoryLine and SphinxInventory.getLink -> '
+        'Gen/InventoryCode.v in the language of Model/InventoryIR.v; its normalisations -- for/range and while as SLoop, '
+        'augmented assignment, dropped exception messages -- and the primitives of the language (str.split/join, '
+        'indexing/slicing, int(), len, endswith, dict.get, f-strings of str) are trusted as stated in Model/InventoryIR.v); '
+        'the interpretation of the generated code is also run against pydoctor as a third leg of the correspondence',
         'correspondence harness harness/c17.py + harness/impl/c17_inventory.py (real pydoctor.sphinx / driver.make / Sphinx reader)',
         'oracles, quantified over in the theorems: zlib.decompress / zlib.compress (contract: decompress(compress b) = b, '
         'compressed data never starts with "#"), utf-8 codec (contract: decode(concat(map encode ls)) = concat ls), '
@@ -406,7 +413,11 @@ class Check(PropertyCheck):
                  'object reachable through contents, mapped to its url (C17_inventory_roundtrip, '
                  'C17_entries_are_the_visible_objects, C17_roundtrip_getlink; guards: no int()-like piece from index 2 on, no '
                  'line boundary character in a qualified name, distinct qualified names). The model is tied to '
-                 'pydoctor/sphinx.py by an exhaustive + generated correspondence check and the round trip is observed on '
+                 'pydoctor/sphinx.py twice: (a) the bodies of _parseInventoryLine and SphinxInventory.getLink are translated from '
+                 'the current source on every run into a deep-embedded statement language (Gen/InventoryCode.v) and '
+                 'C17_code_parse_line_is_model / C17_code_get_link_is_model prove, for all inputs, that interpreting that '
+                 'code is the model (C17_code_parse_total states the robustness core on the translated code); (b) '
+                 'by an exhaustive + generated correspondence check and the round trip is observed on '
                  'generated projects through pydoctor\'s reader and Sphinx\'s.'),
         'note': ('Trusted: Coq kernel, extraction + OCaml driver, Python harness. Oracles (zlib, utf-8 codec) are quantified '
                  'over with stated contracts; py_int/splitlines/quote are executable models validated against CPython. '
@@ -835,6 +846,22 @@ class Check(PropertyCheck):
     def check_lines(self, cases: List[Dict[str, Any]], out: List[Violation]) -> None:
         impl = lib.run_impl_worker(WORKER, cases, jobs=8)
         mod = self.model('inventory', [enc([0, 0, c['line']]) for c in cases])
+        # the interpretation of the code TRANSLATED from sphinx.py (Gen/InventoryCode.v): third leg of the comparison
+        modir = self.model('inventory_ir', [enc([0, c['line']]) for c in cases])
+        nir = 0
+        for c, r, mi in zip(cases, impl, modir):
+            mm = dec(mi)
+            if mm[0] == 0 and len(mm) == 7:
+                ci = [0, txt(mm[1]), txt(mm[2]), mm[3], mm[4], txt(mm[5]), txt(mm[6])]
+            elif mm[0] == 1:
+                ci = [1, EXN.get(mm[1], '?')]
+            else:
+                ci = [2, 'stuck']
+            if ci != r and nir < 10:
+                nir += 1
+                out.append(Violation('correspondence', 'the code translated from sphinx._parseInventoryLine (Gen/InventoryCode.v, '
+                                     'interpreted by Model.InventoryIR) and the real function disagree: the translator or the '
+                                     'statement language misrepresents the source', case=c, expected=ci, observed=r))
         suspicious: List[str] = []
         for c, r, m in zip(cases, impl, mod):
             mm = dec(m)
@@ -864,6 +891,22 @@ class Check(PropertyCheck):
     def check_fetches(self, cases: List[Dict[str, Any]], out: List[Violation]) -> None:
         impl = lib.run_impl_worker(WORKER, cases, jobs=8)
         mod = self.model('inventory', [fetch_to_wire(c) for c in cases])
+        # getLink as translated from the source, on the maps the real reader built
+        irq, irw = [], []
+        for c, r in zip(cases, impl):
+            if r['links'] and not r['exc'] and len(irq) < 4000:
+                for n, u in r['answers']:
+                    irq.append(enc([1, r['links'], n]))
+                    irw.append((c, n, u))
+        nir = 0
+        for (c, n, u), mi in zip(irw, self.model('inventory_ir', irq)):
+            mm = dec(mi)
+            got = (txt(mm[2]) if mm[1] else None) if len(mm) == 3 else '!stuck'
+            if got != u and nir < 10:
+                nir += 1
+                out.append(Violation('correspondence', 'the code translated from SphinxInventory.getLink (Gen/InventoryCode.v, interpreted '
+                                     'by Model.InventoryIR) and the real method disagree on getLink(%r)' % n, case=c, expected=got, observed=u))
+        self.stats['getlink_ir_queries'] = len(irq)
         noracle = 0
         for c, r, m in zip(cases, impl, mod):
             cm = canon_model_fetch(dec(m))
